@@ -260,6 +260,19 @@ def _run(V, work, tier):
             body = [dfn] + (uses if order == 0 else uses[::-1]) if order == 0 else uses[:1] + [dfn] + uses[1:]
             sessions.append(("clash-%s%d" % (kind, order), [LIBF, "\n".join(body) + "\n"], False, None))
             sessions.append(("clash1-%s%d" % (kind, order), [LIBF + "\n".join(body) + "\n"], False, None))
+    # a package's exported macro whose TEMPLATE names a private helper of the package - package-qualified, because the
+    # expansion is evaluated in the caller's package; the qualified spelling stands ONLY inside the quasiquote (directly,
+    # under an unquote, in a nested template), in one file and across two
+    QT = [("direct", "(defmacro with-doubled (e) (quasiquote (lib:double-it (unquote e))))", "(with-doubled 21)"),
+          ("under-unquote", "(defmacro with-doubled (e) (quasiquote (list (unquote (if (symbol? e) '(lib:double-it 1) (list 'lib:double-it e))))))", "(with-doubled 21)"),
+          ("nested-call", "(defmacro with-doubled (e) (quasiquote (let ((v (unquote e))) (list 'area (lib:double-it (lib:double-it v))))))", "(with-doubled 7)"),
+          ("value-use", "(defmacro with-doubled (e) (quasiquote (map 'list lib:double-it (list (unquote e) 2))))", "(with-doubled 5)"),
+          ("unquote-splicing", "(defmacro with-doubled (&rest es) (quasiquote (list (lib:double-it (unquote (car es))) (unquote-splicing (cdr es)))))", "(with-doubled 4 5 6)")]
+    for tag, mac, use in QT:
+        libsrc = "(in-package 'lib)\n(export 'with-doubled)\n(defun double-it (n) (* 2 n))\n(defun unrelated (n) (+ n 1))\n%s\n" % mac
+        usesrc = "(in-package 'user)\n(use-package 'lib)\n(defun caller (q) (list q %s))\n(probe 'r (caller 1) %s)\n" % (use, use)
+        sessions.append(("qualified-template-%s-2" % tag, [libsrc, usesrc], False, None))
+        sessions.append(("qualified-template-%s-1" % tag, [libsrc + usesrc], False, None))
     # the SAME programs cut into two files at a top-level boundary (one minify session over both files): what one file
     # defines and the other mentions - through a call, a macro body, a local macro, a template, a set - must keep meeting
     base = list(sessions)
